@@ -41,6 +41,15 @@ fn settings() -> Vec<Setting> {
     v
 }
 
+/// second group of settings, used by the length sweeps: max_length at every value 0..=70 and a few beyond
+fn big_settings() -> Vec<Setting> {
+    let mut big: Vec<Setting> = vec![];
+    for sep in [Some("."), Some("-"), None] { for lower in [false, true] { for keep in [false, true] {
+        for max in (0..=70usize).chain([100, 127, 128, 255, 256, 1000]) { big.push(Setting { name: format!("sep={sep:?},lower={lower},keep={keep},max={:?}", Some(max)), sep, lower, keep, max: Some(max), preset: None }); }
+    }}}
+    big
+}
+
 fn build(s: &Setting) -> Sanitizer {
     match s.preset {
         Some("semver_str") => Sanitizer::semver_str(),
@@ -221,9 +230,10 @@ fn main() {
         }
         let x = case["input"].as_str().unwrap().to_string();
         let name = case["setting"].as_str().unwrap();
-        let i = sets.iter().position(|s| s.name == name).unwrap_or_else(|| machinery_error("unknown setting"));
+        let all_sets: Vec<Setting> = sets.iter().cloned().chain(big_settings()).collect();
+        let set = all_sets.iter().find(|s| s.name == name).unwrap_or_else(|| machinery_error("unknown setting"));
         let mut st = Stats::default();
-        if let Some((class, detail)) = judge(&x, &sets[i], &built[i], &mut st) {
+        if let Some((class, detail)) = judge(&x, set, &build(set), &mut st) {
             ctx.violation(&class, format!("{x:?} [{name}]"), case.clone(), detail);
         }
         finish(&ctx, Coverage::default());
@@ -287,16 +297,37 @@ fn main() {
     if d1.digest != d2.digest {
         machinery_error("determinism replay diverged");
     }
+    // (L) length sweeps: repeated units of every length 0..=200 (thorough 600) under every setting, and under a second
+    // group of settings whose max_length takes every value 0..=70 and a few beyond
+    let s_len = {
+        let big = big_settings();
+        let big_built: Vec<Sanitizer> = big.iter().map(build).collect();
+        let units = ["a", "0", "a.", ".a", "-", "a0.", "0.", "é", "aZ-", "00.", "1", "Z"];
+        let nmax = if ctx.quick() { 200usize } else { 600 };
+        use rayon::prelude::*;
+        units.par_iter().map(|u| {
+            let mut st = Stats::default();
+            for n in 0..=nmax {
+                let x = u.repeat(n);
+                st.inc("strings"); st.inc("length_sweep_strings");
+                for (set, blt) in sets.iter().zip(built.iter()).chain(big.iter().zip(big_built.iter())) {
+                    st.inc("evaluations");
+                    if let Some((class, detail)) = judge(&x, set, blt, &mut st) { ctx.violation(&class, format!("{:?} x {n} [{}]", u, set.name), json!({"input": x, "setting": set.name}), detail); }
+                }
+            }
+            st
+        }).reduce(Stats::default, Stats::merge)
+    };
     // (t) the template function sanitize(...) on text, number and boolean values
     let stpl = template_layer(&ctx, &sets, &built, &sigma9, if ctx.quick() { 3 } else { 4 });
-    let all = s9.clone().merge(s12.clone()).merge(stpl);
+    let all = s9.clone().merge(s12.clone()).merge(stpl).merge(s_len);
     let mut cov = Coverage::default();
     cov.states = all.get("strings");
     cov.transitions = all.get("strings").saturating_sub(2);
     cov.evaluations = all.get("evaluations");
     cov.traces_validated = all.get("evaluations");
     cov.distinct_nontrivial = all.get("nontrivial_strings");
-    cov.rule = format!("every string over Sigma9={sigma9:?} up to length {l9} and over Sigma12={sigma12:?} up to length {l12} (trie, exhaustive), each under {} sanitiser settings; (t) the template function sanitize(...) bound to the direct call: every string up to length 3 (thorough 4) as a text value, 14 numbers (0 .. 2^64-1) reaching it as variable / custom JSON number / template literal, negative, fractional and boolean values x every expressible setting; a string is non-trivial when it mixes ASCII alphanumerics with other characters (separators / non-ASCII), counted per alphabet", sets.len());
+    cov.rule = format!("every string over Sigma9={sigma9:?} up to length {l9} and over Sigma12={sigma12:?} up to length {l12} (trie, exhaustive), each under {} sanitiser settings; (L) 12 repeated units at every length 0..=200 (thorough 600) under every setting and under max_length 0..=70, 100, 127, 128, 255, 256, 1000; (t) the template function sanitize(...) bound to the direct call: every string up to length 3 (thorough 4) as a text value, 14 numbers (0 .. 2^64-1) reaching it as variable / custom JSON number / template literal, negative, fractional and boolean values x every expressible setting; a string is non-trivial when it mixes ASCII alphanumerics with other characters (separators / non-ASCII), counted per alphabet", sets.len());
     cov.exhaustive = true;
     cov.samples = vec![
         json!({"input": "a.00Z", "setting": sets[4].name}),
